@@ -29,6 +29,8 @@ def scenarios(tier, pid):
        "--watch", "10,12", "--preempt", 3 if T else 2)
     sc("forever_nested_two_signals", ("C09", "C10"), "--consumer", "f3", "--watch", "10,12",
        "--nested", 2, "--handler-atomic", "--preempt", 0)
+    sc("forever_left_and_entered_again", ("C09", "C10"), "--consumer", "f1,f1,p", "--others", "D10;D12",
+       "--watch", "10,12", "--preempt", 2)
     sc("wait_nested_delivery_on_consumer", ("C09", "C10", "C03"), "--consumer", "w,w",
        "--nested", 2 if T else 1, "--preempt", 1)
     sc("pending_nested_delivery_on_consumer", ("C09", "C10", "C03"), "--consumer", "p,p,p",
@@ -65,6 +67,10 @@ def scenarios(tier, pid):
        "--preempt", 2)
     return S
 
+
+IT_ACTIONS = ["H_Begin", "H_Store", "H_Wake", "N_Begin", "N_Store", "N_Wake", "Cl_Step", "C_Start",
+              "C_Cb", "C_Flush", "C_Scan", "C_ScanDone", "C_PClosed", "C_PPoll", "C_RetPending",
+              "C_Return"]
 
 MODEL_INV = {"C09": ["NoLostWakeup"], "C10": ["YieldBounded"],
              "C11": ["PendingOnlyIfConsulted", "CloseUnblocks"]}
@@ -160,8 +166,10 @@ def run_model(chk, tier):
     for what, cfg, tmo in model_configs(tier):
         c = dict(cfg)
         c.update(consts)
+        second = what == model_configs(tier)[1][0]
         r = chk.model_check("Iterator.tla", c, invariants=MODEL_INV[pid], what=what, timeout=tmo,
-                            workers=8 if tier == "quick" else 12, deadlock=False)
+                            workers=8 if tier == "quick" else 12, deadlock=False,
+                            expect=IT_ACTIONS if second else ())
         if r.violation:
             chk.model_violation(r, "iterator protocol as extracted (%s)" % what, c)
 
